@@ -419,6 +419,13 @@ def run(run, tier, replay=None):
             if base_res["exc"]:
                 # a crash is C06's business; determinism of the crash itself is still checked below through equal (empty) trees
                 pass
+            if hooks:
+                # a failing ruff hook (lint error it cannot fix) is reported as an ERROR diagnostic; it is a consequence of what was generated, so the
+                # trees are still compared: the difference must then be explained (so far only addl_lazy_order: the injected import shadows the class, F823)
+                for s in ss:
+                    for res, _t in results[(di, s, hooks)]:
+                        res["ruff_failed"] = [d for d in res["diag"] if d[1] == "ruff failed"]
+                        res["diag"] = [d for d in res["diag"] if d[1] != "ruff failed"]
             clean = all(not results[(di, s, hooks)][0][0]["diag"] and not results[(di, s, hooks)][0][0]["exc"] for s in ss)
             if hooks and any(h == "Skipping Integration" for s in ss for (_, h, _) in results[(di, s, hooks)][0][0]["diag"]):
                 run.violation("harness-error", {"note": "ruff not found on PATH in hook run"}, no_input=True)
@@ -454,7 +461,11 @@ def run(run, tier, replay=None):
                         run.violation("oracle", {"note": "a reordering of a diagnostic-free document produced diagnostics", "doc_name": name, "doc_a": vs[0], "doc_b": vs[vi], "seed_a": ss[0], "seed_b": s,
                                                  "hooks": hooks, "diag": res["diag"][:3], "exc": res["exc"]})
                         continue
-                    for path, verdict, det in compare(base_tree, tree, base_res, res, tbl):
+                    cmp = compare(base_tree, tree, base_res, res, tbl)
+                    if bool(res.get("ruff_failed")) != bool(base_res.get("ruff_failed")) and not any(v != "violation" and "addl_lazy_order" in v for _, v, _ in cmp):
+                        run.violation("oracle", {"note": "the ruff post-hook fails for one order / hash seed of the document and not for the other", "doc_name": name, "doc_a": vs[0], "doc_b": vs[vi],
+                                                 "seed_a": ss[0], "seed_b": s, "hooks": hooks, "diag": (res.get("ruff_failed") or base_res.get("ruff_failed"))[:1]})
+                    for path, verdict, det in cmp:
                         if media_variant and verdict == "violation" and media_order_by_design(path, base_tree.get(path), tree.get(path), base_res, res):
                             hits["media-type-order(by design)"] = hits.get("media-type-order(by design)", 0) + 1
                             continue
